@@ -12,21 +12,11 @@ import (
 // generator drops the (style, integer) pairs whose reference evaluation goes through one of them.
 // The oracle itself (check) knows nothing of this list.
 var knownDefectTrace = map[string]string{
-	"cyclic<=0":                     "F1 cyclic-nonpositive-panic",
-	"additive-zero-weight-reached":  "F2 additive-zero-weight-panic",
-	"negative-2sym":                 "F3 negative-descriptor-reversed",
-	"pad-nonascii":                  "F5 pad-counts-bytes",
-	"neg-algorithm-failed":          "F9 fallback-gets-absolute-value",
-	"range-inf-lower":               "F8 range-infinite-lower-bound-rejected",
-	"extends-undefined":             "F4 extends-undefined-drops-descriptors",
-	"extends-into-cycle":            "F10 extends-into-cycle-drops-descriptors",
-	"fallback-extends-interference": "F12 fallback-and-extends-share-one-visited-set",
-}
-
-// knownDefectStatic: the same for features of how a style is written.
-var knownDefectStatic = map[string]string{
-	"extends-undefined":  "F4 extends-undefined-drops-descriptors",
-	"extends-into-cycle": "F10 extends-into-cycle-drops-descriptors",
+	// F01 cyclic<=0, F02 additive-zero-weight-reached, F03 negative-2sym, F04 extends-undefined,
+	// F05 pad-nonascii, F08 range-inf-lower, F09 neg-algorithm-failed were repaired in /repo and are
+	// generated again.
+	"extends-into-cycle":            "F10 extends-into-cycle-drops-descriptors (open)",
+	"fallback-extends-interference": "F12 fallback-and-extends-share-one-visited-set (open)",
 }
 
 func hitsKnown(tr Trace, table map[string]string) bool {
@@ -38,7 +28,7 @@ func hitsKnown(tr Trace, table map[string]string) bool {
 	return false
 }
 
-// maxDocInt bounds the integers written in declarations of generated documents (finding F6).
+// maxDocInt bounds the integers written in declarations of generated documents (finding F06, open).
 const maxDocInt = 1 << 24
 
 // genNoiseCase: a rule set printed with one construct that must not change its meaning (noise.go).
@@ -116,9 +106,8 @@ func finishStylesCase(r *rand.Rand, o genOpts, defs []StyleDef, css string, with
 			if r.Intn(2) == 0 || len(in.Doc) == 0 {
 				ds := evalSet{Name: es.Name}
 				for k := 0; k < 40 && len(ds.Values) < 6; k++ {
-					// F6: integers beyond ±2^24 in a declaration are rounded to float32 precision
-					// F11: an empty marker text panics in boxes.NewTextBox
-					if v := es.Values[r.Intn(len(es.Values))]; v >= -maxDocInt && v <= maxDocInt && env.Marker(es.Name, v, nil) != "" {
+					// F06 (open): integers beyond ±2^24 in a declaration are rounded to float32 precision
+					if v := es.Values[r.Intn(len(es.Values))]; v >= -maxDocInt && v <= maxDocInt {
 						ds.Values = append(ds.Values, v)
 					}
 				}
@@ -136,9 +125,6 @@ func finishStylesCase(r *rand.Rand, o genOpts, defs []StyleDef, css string, with
 				n = 1
 			}
 			a.Symbols = distinctSyms(r, n, o.asciiOnly)
-			if a.Type == "string" && a.Symbols[0] == "" {
-				a.Symbols[0] = "-" // F11
-			}
 			cand := []int64{-7, -1, 0, 1, 2, 3, 4, 5, 6, 9, 10, 11, 17, 26, 27, 100, 1000, 65536}
 			var e *effective
 			if a.Type != "string" {
